@@ -21,7 +21,7 @@ def sh(c, cwd=None):
     return p.returncode, p.stdout
 res = {}
 changes = []
-for sid in sorted(os.listdir(os.path.join(V, "seeded"))):
+for sid in sorted(d for d in os.listdir(os.path.join(V, "seeded")) if not d.startswith("_")):
     changes.append(("seed:" + sid, ("patch", os.path.join(V, "seeded", sid, "patch.diff"))))
 M = json.load(open(os.path.join(V, "mutants", "mutants.json")))
 for name, m in M.items():
